@@ -18,6 +18,7 @@ def run(ctx):
     g = gtirb_from_repo.load()
     import lookups as _lkr
     _lkr.repeated_events(ctx, g, 'interval-lookup')
+    _lkr.many_members(ctx, g, 'interval-lookup')
     import lookups as _lkd
     _lkd.deferred_consumption(ctx, g, 'intervals', 'interval-lookup:deferred')
     nh, ln = (200, 40) if ctx.quick else (3000, 60)
